@@ -110,6 +110,9 @@ func (d *Dir) addNode(newNode os.FileInfo) error {
 	d.mu.Lock()
 	defer d.mu.Unlock()
 	nodeName := newNode.Name()
+	if !isValidNodeName(nodeName) {
+		return goaterr.Errorf("%q is not a valid node name", nodeName)
+	}
 	if _, ok := d.index[nodeName]; ok {
 		return goaterr.Errorf("node named %s exists", nodeName)
 	}
@@ -126,6 +129,9 @@ func (d *Dir) mkdir(name string, mode os.FileMode) (dir *Dir, err error) {
 	)
 	if dir, err = d.getDir(name); err == nil {
 		return dir, nil
+	}
+	if !isValidNodeName(name) {
+		return nil, goaterr.Errorf("%q is not a valid directory name", name)
 	}
 	d.mu.Lock()
 	defer d.mu.Unlock()
